@@ -36,6 +36,9 @@ var variantKinds = []string{
 	"far-future",   // timestamp far beyond the allowed window, re-sealed
 	"old-time",     // timestamp not after the parent's, re-sealed
 	"version",      // protocol-version state fields violated, re-sealed
+	"gas-used",     // header.GasUsed off by one, re-sealed: only the post-execution validation sees it
+	"receipt-root", // header.ReceiptHash changed, re-sealed: only the post-execution validation sees it
+	"bloom",        // header.Bloom changed, re-sealed: only the post-execution validation sees it
 }
 
 // makeVariant builds an invalid variant of valid node t; ok=false if this kind does not apply.
@@ -148,6 +151,15 @@ func (cx *world) makeVariant(t *node, kind string) (*variant, bool) {
 			h.NextVoteBefore = 3
 		}
 		v.blk, err = cx.reseal(t, h, txs)
+	case "gas-used":
+		h.GasUsed++
+		v.blk, err = cx.reseal(t, h, txs)
+	case "receipt-root":
+		h.ReceiptHash[7] ^= 0x21
+		v.blk, err = cx.reseal(t, h, txs)
+	case "bloom":
+		h.Bloom[11] ^= 0x04
+		v.blk, err = cx.reseal(t, h, txs)
 	default:
 		return nil, false
 	}
@@ -165,4 +177,34 @@ func (cx *world) makeVariant(t *node, kind string) (*variant, bool) {
 		cx.noteTx(tx)
 	}
 	return v, true
+}
+
+// childOnVariant re-seals a valid child of v.of onto the invalid variant v (same content, parent
+// hash = the variant's hash): executed on the variant's announced state it would be a perfectly
+// good block, but its parent is invalid, so it must never become canonical either. A node that
+// kept the refused variant around (in its database or caches) might accept it.
+func (cx *world) childOnVariant(v *variant) (*variant, bool) {
+	if v.sameHash {
+		return nil, false
+	}
+	var ch *node
+	for _, c := range v.of.children {
+		if c.br == v.of.br {
+			ch = c
+			break
+		}
+	}
+	if ch == nil {
+		return nil, false
+	}
+	h := ch.blk.Header()
+	h.ParentHash = v.blk.Hash()
+	blk, err := cx.reseal(ch, h, ch.blk.Transactions())
+	if err != nil || blk == nil || cx.byHash[blk.Hash()] != nil {
+		return nil, false
+	}
+	cv := &variant{kind: "child-of-invalid", of: ch, blk: blk, name: fmt.Sprintf("%s~on-%s", ch.name, v.name)}
+	cx.variants = append(cx.variants, cv)
+	cx.varByHash[blk.Hash()] = append(cx.varByHash[blk.Hash()], cv)
+	return cv, true
 }
